@@ -5,6 +5,7 @@ import (
 	"fmt"
 	"io"
 	"math"
+	"runtime/debug"
 	"time"
 
 	"github.com/hashicorp/raft"
@@ -27,7 +28,16 @@ func init() {
 		res.merge(runCodec(), "")
 		return res
 	}
-	engines["C15"] = runSizes
+	engines["C15"] = func() *ShardResult {
+		// concurrent reads of entries larger than the pooled read buffer first (scheduler part), then the size menu
+		total := *fBudget
+		*fBudget = total / 4
+		res := newResult()
+		res.merge(runSched("C15"), "sched_")
+		*fBudget = total
+		res.merge(runSizes(), "")
+		return res
+	}
 }
 
 // idCodec is the default binary encoding under a caller-chosen codec ID.
@@ -173,6 +183,28 @@ func runCodec() *ShardResult {
 		if d := sameLog(l, &got); d != "" {
 			add("alias", fmt.Sprintf("decoded log of %s changed when the input buffer was overwritten: %s", desc, d), nil)
 		}
+		// decoding another log into the same struct must not write into the slices of the first result
+		kept := got
+		other := &raft.Log{Index: l.Index + 1, Term: 9, Type: 3, AppendedAt: l.AppendedAt}
+		if l.Data != nil {
+			other.Data = bytes.Repeat([]byte{0x5a}, len(l.Data))
+		}
+		if l.Extensions != nil {
+			other.Extensions = bytes.Repeat([]byte{0xa5}, len(l.Extensions))
+		}
+		var buf2 bytes.Buffer
+		if err := codec.Encode(other, &buf2); err == nil {
+			if err := codec.Decode(append([]byte(nil), buf2.Bytes()...), &got); err != nil {
+				add("decode-reuse", fmt.Sprintf("Decode into a log that held %s failed: %v", desc, err), nil)
+			} else {
+				if d := sameLog(l, &kept); d != "" {
+					add("alias-reuse", fmt.Sprintf("decoded log of %s changed when another log was decoded into the same struct: %s", desc, d), nil)
+				}
+				if d := sameLog(other, &got); d != "" {
+					add("reuse-result", fmt.Sprintf("Decode into a struct that held %s: %s", desc, d), nil)
+				}
+			}
+		}
 		outcomes[fmt.Sprintf("len%d", len(enc)/4096)] = true
 	}
 	// full product of scalar fields with small payloads
@@ -288,6 +320,24 @@ func storeGetAndAlias(res *ShardResult, add func(string, string, map[string]inte
 			if d := sameLog(&cp, &gi); d != "" {
 				add("alias-getlog", fmt.Sprintf("log returned by GetLog(%d) changed after GetLog(%d): %s", i, j, d), nil)
 			}
+			// the same target struct used again: the caller kept the first result (a struct copy shares
+			// the slices), the second read must not write into those slices
+			var g raft.Log
+			if err := sys.W.GetLog(i, &g); err != nil {
+				continue
+			}
+			kept := g
+			if err := sys.W.GetLog(j, &g); err != nil {
+				continue
+			}
+			res.Counts["evaluations"]++
+			res.Counts["alias_pairs"]++
+			if d := sameLog(&cp, &kept); d != "" {
+				add("alias-reuse", fmt.Sprintf("log returned by GetLog(%d) changed after GetLog(%d) into the same raft.Log: %s", i, j, d), nil)
+			}
+			if d := sameLog(want[j-1], &g); d != "" {
+				add("alias-reuse-result", fmt.Sprintf("GetLog(%d) into a raft.Log that held the result of GetLog(%d): %s", j, i, d), nil)
+			}
 		}
 	}
 	if err := sys.Apply(core.Op{K: "R"}); err != nil {
@@ -401,17 +451,20 @@ func runSizes() *ShardResult {
 	for s := 0; s <= 16; s++ {
 		sizes = append(sizes, s)
 	}
-	for s := 64*1024 - 48; s <= 64*1024+16; s++ {
+	for s := 64*1024 - 96; s <= 64*1024+16; s++ {
 		sizes = append(sizes, s)
+	}
+	for s := 128*1024 - 64; s <= 128*1024+8; s++ {
+		sizes = append(sizes, s) // the next power of two: buffers that grow by doubling
 	}
 	for _, seg := range segSizes {
 		for d := -72; d <= 48; d += 4 {
 			sizes = append(sizes, seg+d)
 		}
 	}
-	positions := []string{"alone", "first", "middle", "last"}
+	positions := []string{"alone", "first", "middle", "last", "second"}
 	res.Bounds["segment_sizes"] = segSizes
-	res.Bounds["payload_sizes"] = fmt.Sprintf("0..16, 64Ki-48..64Ki+16, seg-72..seg+48 step 4 (%d sizes), 64Mi neighbourhood on shard 0", len(sizes))
+	res.Bounds["payload_sizes"] = fmt.Sprintf("0..16, 64Ki-96..64Ki+16, 128Ki-64..128Ki+8, seg-72..seg+48 step 4 (%d sizes), 64Mi neighbourhood on shard 0", len(sizes))
 	res.Bounds["batch_positions"] = positions
 	n := 0
 	outcomes := map[string]bool{}
@@ -453,7 +506,13 @@ func (discard) Write(p []byte) (int, error) { return len(p), nil }
 
 var _ io.Writer = discard{}
 
-func sizeCase(res *ShardResult, add func(string, string, map[string]interface{}), seg, sz int, pos string) string {
+func sizeCase(res *ShardResult, add func(string, string, map[string]interface{}), seg, sz int, pos string) (oc string) {
+	defer func() {
+		if r := recover(); r != nil {
+			add("panic", fmt.Sprintf("a %d-byte payload (position %s, segment %d) makes the WAL panic: %v\n%s", sz, pos, seg, r, trimRepoStack(string(debug.Stack()))), map[string]interface{}{"segment_size": seg, "payload": sz, "position": pos})
+			oc = "panic"
+		}
+	}()
 	res.Counts["evaluations"]++
 	res.Counts["transitions"]++
 	res.Counts["traces_validated"]++
@@ -485,7 +544,13 @@ func sizeCase(res *ShardResult, add func(string, string, map[string]interface{})
 	}
 	var batch []*raft.Log
 	var target uint64
+	var pre []*raft.Log
 	switch pos {
+	case "second":
+		// its own batch, but not the first of the segment
+		pre = []*raft.Log{mk(1, 8)}
+		batch = []*raft.Log{mk(2, sz)}
+		target = 2
 	case "alone":
 		batch = []*raft.Log{mk(1, sz)}
 		target = 1
@@ -499,10 +564,16 @@ func sizeCase(res *ShardResult, add func(string, string, map[string]interface{})
 		batch = []*raft.Log{mk(1, 8), mk(2, 8), mk(3, sz)}
 		target = 3
 	}
-	want := make([]*raft.Log, len(batch))
-	for i, l := range batch {
+	var want []*raft.Log
+	for _, l := range append(append([]*raft.Log{}, pre...), batch...) {
 		c := *l
-		want[i] = &c
+		want = append(want, &c)
+	}
+	if len(pre) > 0 {
+		if e := sys.W.StoreLogs(pre); e != nil {
+			add("internal", "INTERNAL first batch: "+e.Error(), desc)
+			return "internal"
+		}
 	}
 	err := sys.W.StoreLogs(batch)
 	verify := func(phase string) bool {
@@ -550,7 +621,7 @@ func sizeCase(res *ShardResult, add func(string, string, map[string]interface{})
 		add("refused-valid", fmt.Sprintf("StoreLogs refused a batch whose largest entry (payload %d bytes, position %s, segment %d) is within the documented 64 MiB maximum: %v", sz, pos, seg, err), desc)
 	}
 	l, _ := sys.W.LastIndex()
-	if l != 0 {
+	if l != uint64(len(pre)) {
 		add("refused-changed", fmt.Sprintf("StoreLogs refused a %d-byte payload (%v) but LastIndex is %d", sz, err, l), desc)
 	}
 	sys.W.Close()
